@@ -55,6 +55,9 @@ SCENARIOS = [
     ('recursive', {'memoization': True}, True),
     ('abstract', {}, True),
     ('eolterm', {'skipws': True}, False),
+    # Comment rules that are not a single match (choice of regexes / of rules), with memoization
+    ('kw-comment-choice', {'memoization': True}, False),
+    ('comment-rule-choice', {'memoization': True}, False),
 ]
 OPS = ['load-accepted-0', 'load-accepted-1', 'load-rejected-0', 'load-rejected-1', 'load-dangling-ref',
        'load-from-file', 'sibling-flipped-flags', 'sibling-same-config', 'load-failing-in-construction']
